@@ -530,6 +530,30 @@ class Txt:
         parts.append(Txt(cur))
         return tuple(parts)
 
+    def split_ws(self):
+        """split() on white space: every numeric field is one word (its padding is white space), literal text is split as usual; None when a
+        field could itself hold white space or touches a neighbour without a blank"""
+        words, glued = [], False
+        for x in self.p:
+            if isinstance(x, Lit):
+                if not x.s:
+                    continue
+                parts = x.s.split()
+                if parts and not x.s[0].isspace() and glued:
+                    return None
+                words.extend(Txt([Lit(w)]) for w in parts)
+                glued = bool(parts) and not x.s[-1].isspace()
+            else:
+                if x.kind() not in ("int", "float") and not (x.kind() == "any" and not strish(x.v)):
+                    return None
+                w = const_int(x.width) if x.width is not None else None
+                # a right-aligned number in a wider field starts with a blank only if it does not fill the field: words may fuse when it does
+                if glued:
+                    return None
+                words.append(Txt([Fld(x.v, x.conv, None, x.prec, None, x.flags)]))
+                glued = x.eff_align() != "<" or w is None
+        return tuple(words)
+
     def startswith(self, s):
         if not self.p:
             return False if s else True
